@@ -3,7 +3,7 @@
     [convs] of the field types, any user callables, allow_unknown_fields on or off), for EVERY
     item list: any length, order, repetition, literals, unknown names.  [slot_spec], [spec_flat]
     (Run/LoopProofs.v) are comprehensions over the input - no pass, no state. *)
-From DarlingModel Require Import Run.Recv Run.RecvProofs Run.LoopProofs Run.LevelProofs Spec.C01 Run.SpecSound Run.SpecComplete.
+From DarlingModel Require Import Run.Recv Run.RecvProofs Run.LoopProofs Run.LevelProofs Spec.C01 Run.SpecSound Run.SpecComplete Run.EnumProofs Run.NameProofs.
 Local Open Scope list_scope.
 
 (** The declarations put every single-valued field in the "not seen" state and every
@@ -115,7 +115,18 @@ Example C01_declared_mapping_nonvacuous :
      = Some (VStruct [("max_len", VInt 7); ("tags", VList [VStr "a"; VStr "b"]); ("level", VInt 0)]).
 Proof. cbv zeta. split; vm_compute; reflexivity. Qed.
 
+(** "Supplied under its effective name": the name of an item is its path as written, except that a
+    raw identifier is the name it stands for; an item whose path has leading colons addresses no
+    field declared without them (it is an unknown name: handed to the flatten member, ignored
+    where unknown fields are allowed, a mistake otherwise). *)
+Theorem C01_global_path_addresses_no_field :
+  forall (fs : list finfo) p i0,
+    p_leading p = true -> Forall (fun f => String.prefix "::" (fi_name f) = false) fs ->
+    find_arm fs i0 (path_to_string p) = None.
+Proof. exact global_path_addresses_no_field. Qed.
+
 Print Assumptions C01_initial_state.
+Print Assumptions C01_global_path_addresses_no_field.
 Print Assumptions C01_field_values.
 Print Assumptions C01_loop_is_field_comprehension.
 Print Assumptions C01_field_depends_only_on_own_occurrences.
